@@ -107,6 +107,9 @@ type Kernel struct {
 	// below: touched by the root goroutine only (under amu in free-running mode)
 	reqLog   []*NLReq
 	rules    map[RuleKey]*KRule
+	bySEID   map[uint64]map[RuleKey]*KRule // the same rules, per SEID
+	ver      map[uint64]uint64             // bumped by every change under a SEID
+	projMemo map[uint64]projMemo           // projection(seid) as of ver[seid]
 	version  string
 	faults   []*FaultSpec
 	reports  []*KReport
@@ -118,6 +121,9 @@ func newKernel(s *Sim) *Kernel {
 	return &Kernel{
 		sim:      s,
 		rules:    map[RuleKey]*KRule{},
+		bySEID:   map[uint64]map[RuleKey]*KRule{},
+		ver:      map[uint64]uint64{},
+		projMemo: map[uint64]projMemo{},
 		repCount: map[RuleKey]int{},
 		version:  "0.9.5",
 		nextFd:   100,
@@ -575,6 +581,11 @@ func (k *Kernel) exec(r *NLReq, f *FaultSpec, pid uint32) (int, [][]byte) {
 			return int(syscall.EEXIST), nil
 		}
 		k.rules[r.Key] = &KRule{Key: r.Key, Attrs: stripIDs(r.Key.Kind, r.Attrs)}
+		if k.bySEID[r.Key.SEID] == nil {
+			k.bySEID[r.Key.SEID] = map[RuleKey]*KRule{}
+		}
+		k.bySEID[r.Key.SEID][r.Key] = k.rules[r.Key]
+		k.ver[r.Key.SEID]++
 	case "add-update":
 		if !exists {
 			return int(syscall.ENOENT), nil
@@ -593,6 +604,11 @@ func (k *Kernel) exec(r *NLReq, f *FaultSpec, pid uint32) (int, [][]byte) {
 			data = append(data, nlmsg(gtp5gFamilyID, 0, r.Seq, pid, genlBody(cmdDelURR, 0, []Attr{rep.attr()})))
 		}
 		delete(k.rules, r.Key)
+		delete(k.bySEID[r.Key.SEID], r.Key)
+		k.ver[r.Key.SEID]++
+		if len(k.bySEID[r.Key.SEID]) == 0 {
+			delete(k.bySEID, r.Key.SEID)
+		}
 	case "get":
 		if !exists {
 			return int(syscall.ENOENT), nil
@@ -689,8 +705,8 @@ func (k *Kernel) getAttrs(rule *KRule) []Attr {
 
 func (k *Kernel) rulesOf(seid uint64, kind string) []*KRule {
 	var out []*KRule
-	for key, r := range k.rules {
-		if key.SEID == seid && (kind == "" || key.Kind == kind) {
+	for key, r := range k.bySEID[seid] { // (index by SEID: the scan over all rules was quadratic in the many-sessions runs)
+		if kind == "" || key.Kind == kind {
 			out = append(out, r)
 		}
 	}
@@ -722,11 +738,20 @@ func (k *Kernel) allKeys() []RuleKey {
 }
 
 // projection renders everything the kernel holds under one SEID (C05 / C08 oracles).
+type projMemo struct {
+	ver uint64
+	s   string
+}
+
 func (k *Kernel) projection(seid uint64) string {
+	if m, ok := k.projMemo[seid]; ok && m.ver == k.ver[seid] {
+		return m.s
+	}
 	var s string
 	for _, r := range k.rulesOf(seid, "") {
 		s += r.Key.String() + "{" + canonAttrs(r.Attrs) + "}\n"
 	}
+	k.projMemo[seid] = projMemo{k.ver[seid], s}
 	return s
 }
 
